@@ -8,6 +8,7 @@ import (
 	"encoding/asn1"
 	"encoding/pem"
 	"math/big"
+	"strings"
 
 	"github.com/emmansun/gmsm/ecdh"
 	"github.com/emmansun/gmsm/pkcs8"
@@ -40,8 +41,8 @@ func plain(x *mon.Ctx) {
 	reps := x.Scale(6, 96)
 	for _, label := range subjectLabels {
 		n := reps
-		if label[:3] == "rsa" {
-			n = 1 // fixed keys
+		if fixedKey(label) {
+			n = 1
 		}
 		for rep := 0; rep < n; rep++ {
 			c := x.Begin("plain containers of key %s rep=%d", label, rep)
@@ -60,6 +61,17 @@ func plain(x *mon.Ctx) {
 			c.End()
 		}
 	}
+}
+
+// fixedKey: the label determines the key completely (no random part).
+func fixedKey(label string) bool {
+	if strings.HasPrefix(label, "rsa") {
+		return true
+	}
+	if strings.HasPrefix(label, "sm9su") || strings.HasPrefix(label, "sm9eu") {
+		return false // random user identifier
+	}
+	return strings.HasSuffix(label, "/d=1") || strings.HasSuffix(label, "/d=2") || strings.HasSuffix(label, "/d=max")
 }
 
 func plainContainers(c *mon.Case, s *subject) {
